@@ -63,14 +63,20 @@ func validateJSONPatches(patches []byte) error {
 			return fmt.Errorf("%s: invalid path", patch.JSONPatch)
 		}
 
-		if strings.HasPrefix(path, "/"+document.ServiceProperty) {
+		if refersTo(path, document.ServiceProperty) {
 			return fmt.Errorf("%s: cannot modify services", patch.JSONPatch)
 		}
 
-		if strings.HasPrefix(path, "/"+document.PublicKeyProperty) {
+		if refersTo(path, document.PublicKeyProperty) {
 			return fmt.Errorf("%s: cannot modify public keys", patch.JSONPatch)
 		}
 	}
 
 	return nil
+}
+
+// refersTo returns true if the JSON pointer addresses the given top-level property or something inside it
+// (as opposed to another property whose name merely starts with the same characters).
+func refersTo(path, property string) bool {
+	return path == "/"+property || strings.HasPrefix(path, "/"+property+"/")
 }
